@@ -13,6 +13,8 @@ pub const TOKENS: &[&str] = &[
     "\\1", "\\2", "\\9", "\\10", "\\0", "\\00", "\\01", "\\8", "\\k<n>", "\\k<m>", "\\k<x>", "\\k", "\\k<", "\\k<n",
     "\\x41", "\\x4", "\\x", "\\u0041", "\\u004", "\\u", "\\u{41}", "\\u{110000}", "\\u{}", "\\u{41", "\\uD83D\\uDE00", "\\uD83D", "\\uDE00", "\\cA", "\\c1", "\\c", "\\ca",
     "\\p{Lu}", "\\P{Lu}", "\\p{L", "\\p{Foo}", "\\p{Script=Greek}", "\\p{sc=Grek}", "\\p{scx=Zzzz}", "\\p{General_Category=Lu}", "\\p{gc=Foo}", "\\p{Lu=Lu}", "\\p{RGI_Emoji}", "\\P{RGI_Emoji}",
+    "\\p{gc=Alphabetic}", "\\p{gc=ASCII}", "\\p{sc=Lu}", "\\p{scx=Alphabetic}", "\\p{gc=RGI_Emoji}", "\\p{Script=Any}", "\\p{General_Category=Greek}", "\\P{gc=Any}",
+    "\\08", "\\09", "[\\08]", "\\07", "\\1\\08",
     "\\p{Emoji_Keycap_Sequence}", "\\p{ASCII}", "\\p{Any}", "\\p{ lu}", "\\p{lu}", "\\p", "\\P", "\\p{}", "\\p{Script=}", "\\p{=Lu}", "\\p{IsLu}", "\\p{Block=Basic_Latin}", "\\p{Script_Extensions=Latin}",
     "\\-", "\\/", "\\.", "\\(", "\\)", "\\[", "\\]", "\\{", "\\}", "\\|", "\\^", "\\$", "\\*", "\\+", "\\?", "\\\\", "\\a", "\\e", "\\z", "\\_", "\\ ", "\\é", "\\😀", "\\", "\\n", "\\t", "\\v", "\\f", "\\r",
     "/", ",", ":", "<", ">", "=", "!", "&", "&&", "--", "~", "#", "%", "@", "`", ";",
